@@ -63,6 +63,22 @@ def docs():
             if it and it[0]["kind"] == want and it[0]["start"] == 0:
                 d2.append(t)
     assert len(d1) == NDOC and len(d2) == NDOC
+    # documents with guaranteed features (the random ones change whenever the grammar generator changes): quoted values containing
+    # commas, braces, '=' and '#', brace values containing quotes, multi-line values, every block kind first and last
+    fixed1 = ['@article{dAf1,\n  author = "Doe, John and Roe, Jane",\n  title = "On {things}, and = others",\n  year = 2002\n}',
+              '@string{dAs1 = "Feb, {ru}ary"}\n% note\n@preamble{"a, b" # "c"}',
+              '@misc{dAf2, note = {he said "hi", twice}, k = "x" # dAs1 # {y, z}}\n@comment{a, "b" = {c}}']
+    fixed2 = ['@article{dBf1,\n  author = "Doe, John and Roe, Jane",\n  title = "On {things}, and = others",\n  year = 2002\n}\n@string{dBs1 = "Feb, {ru}ary"}\n'
+              '@inproceedings{dBf2,\n  author = "Smith, Adam",\n  pages = "1--2"\n}\n',
+              '@string{dBs2 = "a, b"}\n@misc{dBf3, note = "x, {y}", t = {"q", r}}\n',
+              '@preamble{"p, q"}\n@comment{c, "d"}\n@book{dBf4, title = "T, {U} = V",}\n',
+              '@comment{only, "quoted", text}\n@misc{dBf5, a = "1, 2", b = "3 } 4"}\n'.replace('"3 } 4"', '"3 {4} 5"')]
+    for i, t in enumerate(fixed1):
+        assert recogniser.recognise(t), t
+        d1[i] = t
+    for i, t in enumerate(fixed2):
+        assert recogniser.recognise(t) and recogniser.recognise(t)[0]["start"] == 0, t
+        d2[i] = t
     _DOCS = (d1, d2)
     return _DOCS
 
